@@ -93,9 +93,44 @@ func verifBinaryExpect(op string, x, y *Decimal) verifExpect {
 			return verifInvalid() // 0 ** 0
 		case yz && !xi:
 			return verifExpect{kind: 5} // x ** 0 = 1
+		case yz:
+			return verifExpect{} // Inf ** 0
+		}
+		if (xz || xi) && y.Form == Finite {
+			// a zero or infinite base with a finite non-zero exponent: the magnitude is 0 or
+			// Infinity, and the result is negative exactly when the base is negative and the
+			// exponent is an odd integer
+			isInt, odd := verifIntegerParity(y)
+			neg := x.Negative && isInt && odd
+			if x.Negative && !isInt {
+				if xi {
+					return verifInvalid() // (-Inf) ** non-integer
+				}
+				return verifExpect{} // (-0) ** non-integer: not spelled out
+			}
+			big := xi != y.Negative // Inf**(+) and 0**(-) are infinite; Inf**(-) and 0**(+) are zero
+			if big {
+				return verifExpect{kind: 2, neg: neg}
+			}
+			return verifExpect{kind: 3, neg: neg}
 		}
 	}
 	return verifExpect{}
+}
+
+// verifIntegerParity: is the finite non-zero y an integer, and if so is it odd?
+func verifIntegerParity(y *Decimal) (bool, bool) {
+	e := verifConcretize(int64(y.Exponent))
+	if e > 0 {
+		return true, false // a multiple of ten
+	}
+	var t, q, r BigInt
+	verifPow10(&t, -e)
+	q.QuoRem(&y.Coeff, &t, &r)
+	if r.Sign() != 0 {
+		return false, false
+	}
+	return true, q.Bit(0) == 1
 }
 
 func verifUnaryExpect(op string, x *Decimal) verifExpect {
